@@ -126,6 +126,15 @@ impl Sample {
 
     /// verify sample with root hash from ExtendedHeader
     pub fn verify(&self, id: SampleId, dah: &DataAvailabilityHeader) -> Result<()> {
+        // both coordinates must be inside of the square. The proof itself doesn't commit
+        // to the amount of leaves in the tree, so proofs of the last leaves of a row or
+        // a column would also be valid for some of the indexes beyond its end
+        if usize::from(id.row_index()) >= dah.row_roots().len()
+            || usize::from(id.column_index()) >= dah.column_roots().len()
+        {
+            return Err(Error::EdsIndexOutOfRange(id.row_index(), id.column_index()));
+        }
+
         // root of the axis the share was proven against
         // and an index the share has in that axis
         let (root, index) = match self.proof_type {
